@@ -33,6 +33,10 @@ type World struct {
 	Wrap     string                       // none | wrapErrors | wrapErrorsUsing
 	Renames  map[string]map[string]string // source struct type name → source field → target field
 	LeafFn   map[string]string            // source leaf type name → custom function name
+	// MethodSrc: source struct type → list of (fault function name, target field) for
+	// fallible source methods; Ctor: source struct type → fallible default constructor.
+	MethodSrc map[string][][2]string
+	Ctor      map[string]string
 }
 
 // ---- statistics -------------------------------------------------------------------------
@@ -346,6 +350,12 @@ func Locations(w *World, v reflect.Value) map[verifsim.FaultKey][]verifsim.WrapE
 				id := int(v.FieldByName("ID").Int())
 				out[verifsim.FaultKey{Fn: fn, ID: id}] = path
 				return
+			}
+			if fn, ok := w.Ctor[t.Name()]; ok {
+				out[verifsim.FaultKey{Fn: fn, ID: int(v.FieldByName("ID").Int())}] = path
+			}
+			for _, ms := range w.MethodSrc[t.Name()] {
+				out[verifsim.FaultKey{Fn: ms[0], ID: int(v.FieldByName("ID").Int())}] = ext(path, verifsim.WrapElem{Kind: "field", Value: ms[1]})
 			}
 			for i := 0; i < t.NumField(); i++ {
 				name := t.Field(i).Name
